@@ -55,6 +55,9 @@ def jobs(tier):
         out.append({'ob': 'run_table_%s_k%d' % (variant, k), 'harness': 'run', 'variant': variant, 'k': k, 'ncap': ncap, 'dcap': dcap,
                     'bounds': 'k=%d parts, each raising or not, want none / free text / traceback block; |name|<=%d, |message|<=%d, match=%s; IGNORE_EXCEPTION_DETAIL, IGNORE_WANT, on_error symbolic' % (k, ncap, dcap, variant),
                     'splits': [3, 6, 9, 12, 15, 18], 'query_timeout_s': 120 if q else 600})
+    # C. which exceptions may end a doctest without failing it
+    out.append({'ob': 'exception_classes', 'harness': 'classes', 'k': 2 if q else 3, 'query_timeout_s': 60,
+                'bounds': 'k=%d parts, the raising part and its class (%s) symbolic, native / pytest mode, on_error, plain want or none' % (2 if q else 3, ', '.join(CLASSES))})
     return out
 
 
@@ -355,7 +358,145 @@ class ExcTable(Base):
                 'IGNORE_EXCEPTION_DETAIL': b(self.ied), 'IGNORE_WANT': b(self.iw), 'on_error': 'raise' if b(self.onraise) else 'return'}
 
 
+# ---------------------------------------------------------------- exception classes (kind II)
+
+CLASSES = ['exception', 'base_exception_subclass', 'pytest_fail', 'pytest_xfail', 'pytest_skip', 'exit_test']
+EARLY_EXIT = ('pytest_skip', 'exit_test')       # the two documented ways to end a doctest early without failing
+
+
+def make_exception(cls):
+    if cls == 'exception':
+        return KeyError('boom')
+    if cls == 'base_exception_subclass':
+        return type('UserAbort', (BaseException,), {})('abort')
+    if cls in ('pytest_fail', 'pytest_xfail', 'pytest_skip'):
+        import _pytest.outcomes as O
+        return {'pytest_fail': O.Failed, 'pytest_xfail': getattr(O, 'XFailed', O.Failed), 'pytest_skip': O.Skipped}[cls]('outcome')
+    from xdoctest import exceptions
+    return exceptions.ExitTestException()
+
+
+def classes_verdict(cls, f, K, trace, raised, summ, exc):
+    """-> list of problems: what the statement allows for an exception of this class raised by part f"""
+    bad = []
+    if trace != list(range(f + 1)):
+        bad.append('parts executed %r, expected %r' % (trace, list(range(f + 1))))
+    if cls in EARLY_EXIT:
+        if raised is not None and cls == 'exit_test':
+            bad.append('ExitTestException escapes run: %r' % (raised,))
+        if summ is not None and summ.get('failed'):
+            bad.append('documented early exit reported as failure')
+    else:
+        swallowed = raised is None and (summ is None or not summ.get('failed'))
+        if swallowed:
+            bad.append('the exception is swallowed: run returned %r' % ({k: summ.get(k) for k in ('passed', 'failed', 'skipped')} if summ else None))
+        elif raised is not None and raised is not exc and cls != 'exception':
+            bad.append('another exception escapes: %r' % (raised,))
+    return bad
+
+
+class Classes(Harness):
+    witnesses = ('pytest_fail_in_a_later_part', 'early_exit', 'ordinary_exception_reported')
+
+    def __init__(self, job):
+        self.m = hrun.install()
+        self.job = job
+        K = self.K = job['k']
+        self.f = z3.Int('raising_part')
+        self.cls = z3.Int('exception_class')
+        self.onraise = z3.Bool('on_error_raise')
+        self.pytest_mode = z3.Bool('pytest_mode')
+        self.haswant = z3.Bool('raising_part_has_a_plain_want')
+        self.base = [self.f >= 0, self.f < K, self.cls >= 0, self.cls < len(CLASSES)]
+        self.stubs = hrun.STUB_NOTES
+
+    def run(self, ex):
+        from sea.core import SymBool, SymInt
+        m = self.m
+        E = hrun.ENV
+        E.reset()
+        K = self.K
+        f = int(SymInt(self.f))
+        cls = CLASSES[int(SymInt(self.cls))]
+        onraise = bool(SymBool(self.onraise))
+        mode = 'pytest' if bool(SymBool(self.pytest_mode)) else 'native'
+        haswant = bool(SymBool(self.haswant))
+        exc = make_exception(cls)
+        parts = []
+        for i in range(K):
+            src = 'x = 1 #%d#' % i
+            parts.append(m['doctest_part'].DoctestPart([src], want_lines=['w'] if (i == f and haswant) else None, line_offset=i, orig_lines=['>>> ' + src], directives=[]))
+
+            def beh(code, glb, i=i):
+                if i == f:
+                    hrun.raise_in_doctest_frame(code, exc)
+                return None
+            E.behaviour[i] = beh
+        dt = m['doctest_example'].DocTest('', None, 'f', 0, 1, mode=mode)
+        dt.config['colored'] = False
+        dt._parts = parts
+        raised = summ = None
+        try:
+            summ = dt.run(verbose=0, on_error='raise' if onraise else 'return')
+        except BaseException as e:
+            if type(e).__module__.startswith('sea.'):
+                raise
+            raised = e
+        bad = classes_verdict(cls, f, K, list(E.trace), raised, summ, exc)
+        self.last_error = bad
+        if not bad:
+            if cls == 'pytest_fail' and f >= 1:
+                ex.witness('pytest_fail_in_a_later_part', True)
+            if cls in EARLY_EXIT:
+                ex.witness('early_exit', True)
+            if cls == 'exception' and not onraise:
+                ex.witness('ordinary_exception_reported', True)
+        return {'exception_is_never_swallowed': z3.BoolVal(not bad)}
+
+    def describe(self, model):
+        def b(v):
+            return z3.is_true(model.eval(v, model_completion=True))
+        return {'harness': 'classes', 'raising_part': model.eval(self.f, model_completion=True).as_long(), 'k': self.K,
+                'class': CLASSES[model.eval(self.cls, model_completion=True).as_long()], 'on_error': 'raise' if b(self.onraise) else 'return',
+                'mode': 'pytest' if b(self.pytest_mode) else 'native', 'plain_want': b(self.haswant)}
+
+
+def replay_classes(cex):
+    """a real doctest text through the real parser and run loop"""
+    from xdoctest import core
+    cls, f, K = cex['class'], cex['raising_part'], cex['k']
+    stmt = {'exception': "raise KeyError('boom')", 'base_exception_subclass': "raise type('UserAbort', (BaseException,), {})('abort')",
+            'pytest_fail': "import pytest; pytest.fail('outcome')", 'pytest_xfail': "import pytest; pytest.xfail('outcome')",
+            'pytest_skip': "import pytest; pytest.skip('outcome')",
+            'exit_test': 'import xdoctest; (_ for _ in ()).throw(xdoctest.ExitTestException())'}[cls]
+    TRACE = []
+    lines = []
+    for i in range(K):
+        lines.append('>>> __t(%d)' % i)
+        if i == f:
+            lines.append('>>> ' + stmt)
+            if cex['plain_want']:
+                lines.append('w')
+        lines.append('')
+    dt = list(core.parse_docstr_examples('\n'.join(lines) + '\n'))[0]
+    dt.mode = cex['mode']
+    dt.config['colored'] = False
+    dt.global_namespace['__t'] = TRACE.append
+    raised = summ = None
+    try:
+        summ = dt.run(verbose=0, on_error=cex['on_error'])
+    except BaseException as e:
+        raised = e
+    exc = raised
+    bad = classes_verdict(cls, f, K, TRACE, raised, summ, exc)
+    return {'reproduced': bool(bad), 'detail': 'doctest %r (mode %s, on_error %s): raised %r summary %r: %s' % (
+        '\n'.join(lines), cex['mode'], cex['on_error'], raised, {k: summ.get(k) for k in ('passed', 'failed', 'skipped')} if summ else None, bad),
+        'signature': 'C03:classes:%s:%s' % (cls, 'swallowed' if any('swallowed' in b for b in bad) else 'other')}
+
+
 def build(job):
+    if job.get('harness') == 'classes':
+        return Classes(job)
     return Unit(job) if job.get('harness') == 'unit' else ExcTable(job)
 
 
@@ -449,6 +590,8 @@ def real_run(cex):
 
 
 def replay(job, cex):
+    if cex.get('harness') == 'classes':
+        return replay_classes(cex)
     if cex.get('variant') != 'eq':
         return {'reproduced': False, 'abstract': True,
                 'detail': 'counterexample for an arbitrary match relation; not realisable without fixing M (see the eq variant)'}
